@@ -161,6 +161,11 @@ def gen_rw_script(rng, fmt_entry, max_ops=24, modes=("w", "r", "rw"), ch=None, a
         n = rnd_count()
         if n > 5000:
             n = rng.choice([4097, 2731])
+        # float/double files with a PEAK chunk: the staging loop of the non-native write paths restarts channel counting at
+        # every 2048-item (1024 for double) chunk and looks at buffer[chan] even when the last chunk is shorter than one frame
+        # (known finding KF-PEAK-STAGING); keep such calls inside one chunk so the model (which has no stale buffer) applies
+        if name == "wav" and codec in (0x06, 0x07) and 1024 % ch != 0:
+            n = min(n, 1000 // ch if unit == "f" else 1000 // ch)
         if unit == "f":
             items = max(n, 0) * ch
             cnt = n
